@@ -33,3 +33,150 @@ Lemma start0_nat ov a : pow2a a -> 0 <= ov ->
   Z.of_nat (Z.to_nat ((ov + a - 1) / a * a / a)) = (ov + a - 1) / a /\
   a * ((ov + a - 1) / a) = (ov + a - 1) / a * a.
 Proof. intros Ha Hx. split_a Ha; lia. Qed.
+
+(* ------------------------------------------------------------------ update_field_layout, case by case *)
+
+Lemma inv_overall_nonneg s p : Inv s p -> 0 <= overall s.
+Proof. intros [Hp _ _ [Ho _] _]. unfold bytes_of_bits in Ho. lia. Qed.
+
+(* a member that is not a bit-field *)
+Lemma ufl_regular s p sz a :
+  Inv s p -> pow2a a -> 0 < sz ->
+  let s1 := update_field_layout s sz a (-1) in
+  offset s1 = align_up (bytes_of_bits p) a /\
+  bound_bit s1 = bound_bit s /\ bf_p s1 = false /\
+  overall s1 = Z.max (overall s) (offset s1 + sz) /\ used s1 = used s /\ prev_size s1 = prev_size s.
+Proof.
+  intros HI Ha Hsz. pose proof (inv_overall_nonneg _ _ HI) as Hov.
+  destruct HI as [Hp [Ho1 [Ho2 Ho3]] Hpos [Hov1 Hov2] Hu].
+  unfold update_field_layout.
+  destruct (start0_nat (overall s) a Ha Hov) as [Hk Hm].
+  replace ((((overall s + a - 1) / a * a <? a) && (0 <=? -1))) with false by (destruct (_ <? a); reflexivity).
+  destruct (bf_p s) eqn:Hbf.
+  - rewrite walk_br; [| auto | lia | lia | lia |].
+    + cbn [offset bound_bit bf_p overall used prev_size].
+      subst p. unfold bytes_of_bits in *.
+      replace ((8 * offset s + bound_bit s + 7) / 8) with (offset s + (bound_bit s + 7) / 8) by lia.
+      repeat split; try reflexivity; try lia.
+      destruct (overall s <? _) eqn:E; lia.
+    + rewrite Hk. unfold bytes_of_bits in Hov1. subst p. split_a Ha; lia.
+  - rewrite walk_rr; [| auto | lia |].
+    + cbn [offset bound_bit bf_p overall used prev_size].
+      subst p. unfold bytes_of_bits in *.
+      replace ((8 * (offset s + prev_size s) + 7) / 8) with (offset s + prev_size s) by lia.
+      repeat split; try reflexivity; try lia.
+      destruct (overall s <? _) eqn:E; lia.
+    + rewrite Hk. unfold bytes_of_bits in Hov1. subst p. split_a Ha; lia.
+Qed.
+
+Lemma bound0_eq s p a bits :
+  Inv s p -> pow2a a -> 0 <= bits ->
+  (if ((overall s + a - 1) / a * a <? a) && (0 <=? bits) then 0 else bound_bit s)
+  = (if p =? 0 then 0 else bound_bit s).
+Proof.
+  intros HI Ha Hb. pose proof (inv_overall_nonneg _ _ HI) as Hov.
+  destruct HI as [Hp [Ho1 [Ho2 Ho3]] Hpos [Hov1 Hov2] Hu].
+  replace (0 <=? bits) with true by lia. rewrite andb_true_r.
+  destruct (p =? 0) eqn:E.
+  - assert (overall s = 0) as -> by (apply Hov2; lia).
+    replace ((0 + a - 1) / a * a <? a) with true by (split_a Ha; lia). reflexivity.
+  - assert (overall s <> 0) by (intro H0; apply Hov2 in H0; lia).
+    replace ((overall s + a - 1) / a * a <? a) with false by (split_a Ha; lia). reflexivity.
+Qed.
+
+(* a bit-field of positive width w in a storage unit of f bytes *)
+Lemma ufl_bitfield s p f w :
+  Inv s p -> pow2a f -> f <= 8 -> 0 < w <= 8 * f ->
+  let s1 := update_field_layout s f f w in
+  let unit := 8 * f in
+  let pp := if p mod unit + w <=? unit then p else align_up p unit in
+  offset s1 = pp / unit * f /\ bound_bit s1 = pp mod unit + w /\ bf_p s1 = true /\
+  overall s1 = Z.max (overall s) (offset s1 + f) /\ used s1 = used s /\ prev_size s1 = prev_size s.
+Proof.
+  intros HI Hf Hf8 Hw. pose proof (inv_overall_nonneg _ _ HI) as Hov.
+  pose proof (bound0_eq s p f w HI Hf ltac:(lia)) as Hb0.
+  destruct HI as [Hp [Ho1 [Ho2 Ho3]] Hpos [Hov1 Hov2] Hu].
+  cbv zeta. unfold update_field_layout. rewrite Hb0. clear Hb0.
+  destruct (start0_nat (overall s) f Hf Hov) as [Hk Hm].
+  unfold bytes_of_bits, align_up in *.
+  destruct (bf_p s) eqn:Hbf.
+  - (* bit-field after bit-field *)
+    assert ((if p =? 0 then 0 else bound_bit s) = bound_bit s) as ->
+      by (destruct (p =? 0) eqn:E; lia).
+    assert (Hkf : (8 * offset s + bound_bit s + w - 1) / (8 * f)
+                  <= Z.of_nat (Z.to_nat ((overall s + f - 1) / f * f / f)))
+      by (rewrite Hk; clear Hk Hm; split_a Hf; lia).
+    rewrite (walk_bb (offset s) (prev_size s) f w _ (bound_bit s) Hf
+               ltac:(lia) ltac:(lia) ltac:(lia) ltac:(lia) Hkf).
+    clear Hkf Hk Hm.
+    cbv zeta. cbn [offset bound_bit bf_p overall used prev_size].
+    replace (8 * offset s + bound_bit s) with p by lia.
+    replace (0 <=? w) with true by lia.
+    assert (Hoff : f * ((p + w - 1) / (8 * f)) =
+                   (if p mod (8 * f) + w <=? 8 * f then p else (p + 8 * f - 1) / (8 * f) * (8 * f)) / (8 * f) * f).
+    { destruct (p mod (8 * f) + w <=? 8 * f) eqn:E; split_a Hf; lia. }
+    repeat split; try reflexivity; try lia.
+    + destruct (p <=? 8 * f * ((p + w - 1) / (8 * f))) eqn:E1;
+      destruct (p mod (8 * f) + w <=? 8 * f) eqn:E2; split_a Hf; lia.
+    + destruct (overall s <? _) eqn:E; lia.
+  - (* bit-field after a regular field (or first) *)
+    destruct (p =? 0) eqn:Ep.
+    + assert (offset s = 0 /\ prev_size s = 0) as [-> ->] by lia.
+      rewrite walk_from_zero by (split_a Hf; lia).
+      clear Hk Hm.
+      cbn [offset bound_bit bf_p overall used prev_size].
+      assert (p = 0) as -> by lia.
+      replace (0 <=? w) with true by lia.
+      replace (0 mod (8 * f) + w <=? 8 * f) with true by (split_a Hf; lia).
+      repeat split; try reflexivity; try (split_a Hf; lia).
+      destruct (overall s <? _) eqn:E; lia.
+    + assert (Hke : offset s + prev_size s <= f * Z.of_nat (Z.to_nat ((overall s + f - 1) / f * f / f)))
+        by (rewrite Hk; clear Hk Hm; split_a Hf; lia).
+      rewrite (walk_rb (offset s) (prev_size s) f w _ (bound_bit s) Hf ltac:(lia) ltac:(lia) Hke).
+      clear Hke Hk Hm.
+      cbv zeta.
+      destruct ((offset s + prev_size s - f * ((offset s + prev_size s - 1) / f)) * 8 + w <=? f * 8) eqn:E1;
+      cbn [offset bound_bit bf_p overall used prev_size];
+      replace (0 <=? w) with true by lia;
+      destruct (p mod (8 * f) + w <=? 8 * f) eqn:E2;
+      (repeat split; try reflexivity; try (split_a Hf; lia));
+      destruct (overall s <? _) eqn:E; lia.
+Qed.
+
+(* a zero-width bit-field of a type of f bytes, somewhere after position 0 *)
+Lemma ufl_zero s p f :
+  Inv s p -> pow2a f -> f <= 8 -> 0 < p ->
+  let s1 := update_field_layout s f f 0 in
+  8 * (offset s1 + f) = align_up p (8 * f) /\ 0 <= offset s1 /\ 0 <= bound_bit s1 /\
+  overall s1 = Z.max (overall s) (offset s1 + f) /\ used s1 = used s.
+Proof.
+  intros HI Hf Hf8 Hp0. pose proof (inv_overall_nonneg _ _ HI) as Hov.
+  pose proof (bound0_eq s p f 0 HI Hf ltac:(lia)) as Hb0.
+  destruct HI as [Hp [Ho1 [Ho2 Ho3]] Hpos [Hov1 Hov2] Hu].
+  cbv zeta. unfold update_field_layout. rewrite Hb0. clear Hb0.
+  replace (p =? 0) with false by lia.
+  destruct (start0_nat (overall s) f Hf Hov) as [Hk Hm].
+  unfold bytes_of_bits, align_up in *.
+  destruct (bf_p s) eqn:Hbf.
+  - assert (Hkf : (8 * offset s + bound_bit s + 0 - 1) / (8 * f)
+                  <= Z.of_nat (Z.to_nat ((overall s + f - 1) / f * f / f)))
+      by (rewrite Hk; clear Hk Hm; split_a Hf; lia).
+    rewrite (walk_bb (offset s) (prev_size s) f 0 _ (bound_bit s) Hf
+               ltac:(lia) ltac:(lia) ltac:(lia) ltac:(lia) Hkf).
+    clear Hkf Hk Hm.
+    cbv zeta. cbn [offset bound_bit bf_p overall used prev_size].
+    replace (8 * offset s + bound_bit s) with p by lia.
+    repeat split; try reflexivity; try (split_a Hf; lia).
+    + destruct (p <=? _) eqn:E; split_a Hf; lia.
+    + destruct (overall s <? _) eqn:E; lia.
+  - assert (Hke : offset s + prev_size s <= f * Z.of_nat (Z.to_nat ((overall s + f - 1) / f * f / f)))
+      by (rewrite Hk; clear Hk Hm; split_a Hf; lia).
+    rewrite (walk_rb (offset s) (prev_size s) f 0 _ (bound_bit s) Hf ltac:(split_a Hf; lia) ltac:(lia) Hke).
+    clear Hke Hk Hm.
+    cbv zeta.
+    replace ((offset s + prev_size s - f * ((offset s + prev_size s - 1) / f)) * 8 + 0 <=? f * 8) with true
+      by (split_a Hf; lia).
+    cbn [offset bound_bit bf_p overall used prev_size].
+    repeat split; try reflexivity; try (split_a Hf; lia).
+    destruct (overall s <? _) eqn:E; lia.
+Qed.
